@@ -46,3 +46,51 @@ Theorem C15_gen_order : forall ds v data,
   [ISerialize v (map (nm ds) data); IDeserialize v (map (fun i => (nm ds i, ty ds i)) data)].
 Proof. reflexivity. Qed.
 Print Assumptions C15_gen_order.
+
+(* ---- on the abstract machine: the generated Serialize reads every field of a record through its accessor, in
+   declaration order, and encodes it; the generated Deserialize decodes one element per field and builds the record with
+   the generated constructor.  For every record that holds the variant: serialisation faults nowhere and yields one
+   element per field, deserialising those elements yields a record that holds the same values (an equal record),
+   nothing is destroyed on the way; an input of another length never reaches the constructor. *)
+From Coq Require Import NArith.
+From Truc.Model Require Exec Ops.
+From Truc.Proofs Require ExecP Holds SerdeRecords.
+Theorem C15_record_roundtrip : forall ds TI rt A cap, Exec.rt_ok rt = true -> forall data, ExecP.layout_ok ds TI A cap data ->
+  forall (elem : Type) (enc : nat -> nat -> elem) (dec : nat -> elem -> option nat),
+  (forall t x, dec t (enc t x) = Some x) ->
+  forall v vals r, Holds.holds ds TI cap A data vals r ->
+  exists es r',
+    SerdeRecords.ser_record ds TI rt elem enc data r = Exec.Ok es /\ length es = length data /\
+    SerdeRecords.de_record ds TI rt A cap data elem dec v es = Some (Exec.Ok (Exec.ORecord r', [])) /\
+    Holds.holds ds TI cap A data vals r'.
+Proof.
+  intros ds TI rt A cap RT data L elem enc dec Hde v vals r H.
+  exact (SerdeRecords.record_roundtrip ds TI rt A cap RT data L elem enc dec Hde v vals r H).
+Qed.
+Print Assumptions C15_record_roundtrip.
+
+Theorem C15_record_wrong_length : forall ds TI rt A cap data (elem : Type) (dec : nat -> elem -> option nat) v input,
+  length input <> length data -> SerdeRecords.de_record ds TI rt A cap data elem dec v input = None.
+Proof. intros. now apply SerdeRecords.record_de_wrong_length. Qed.
+Print Assumptions C15_record_wrong_length.
+
+(* (`rt_ok rt` - the facts of data.rs - is established for this tree by the obligation C04_current.) *)
+
+(* a concrete record {a: type 1 at 0, n: type 2 at 24}, a format that tags each element with its type *)
+Definition exs_ds : defs := [mkDatum 0 1 24 8 false 0; mkDatum 1 2 8 8 false 24].
+Definition exs_ti (t : nat) : Exec.tinfo := if Nat.eqb t 1 then Exec.mkTi 24 8 true else Exec.mkTi 8 8 false.
+Example C15_record_roundtrip_nonvacuous :
+  match Ops.op_new exs_ds exs_ti Exec.rt_fixed 8 32 0 [0; 1]%nat (fun i => (100 + i)%nat) with
+  | Exec.Ok (Exec.ORecord r, _) =>
+      match SerdeRecords.ser_record exs_ds exs_ti Exec.rt_fixed (nat * nat) (fun t x => (t, x)) [0; 1]%nat r with
+      | Exec.Ok es =>
+          match SerdeRecords.de_record exs_ds exs_ti Exec.rt_fixed 8 32 [0; 1]%nat (nat * nat)
+                  (fun t e => if Nat.eqb (fst e) t then Some (snd e) else None) 0 es with
+          | Some (Exec.Ok (Exec.ORecord r', _)) => Some (es, Ops.op_get exs_ds exs_ti Exec.rt_fixed r' 0 false, Ops.op_get exs_ds exs_ti Exec.rt_fixed r' 1 false)
+          | _ => None
+          end
+      | _ => None
+      end
+  | _ => None
+  end = Some ([(1, 100); (2, 101)]%nat, Exec.Ok (Some 100%nat), Exec.Ok (Some 101%nat)).
+Proof. vm_compute. reflexivity. Qed.
